@@ -167,8 +167,78 @@ class Stress(Case):
         return res
 
 
+class StressReal(Case):
+    """end to end on the real evaluation code (one normalised s or p shell, symbolic point and density matrix):
+    the three quantities == the reference expressions over reference jets (orders up to 4)"""
+
+    prop = "C15"
+    canary_scale = "Ae0"
+    rtol = 1e-7
+    query_timeout = 120000
+
+    def inputs(self, mk):
+        from sx.harness import shell_spec
+
+        p = self.params
+        sh = shell_spec(mk, "A", p["l"], 1, 1)
+        nb = (p["l"] + 1) * (p["l"] + 2) // 2
+        return dict(sh=sh, P=sym_matrix(mk, nb), pt=[mk.var("p" + x) for x in "xyz"])
+
+    def code(self, I, mk):
+        import gbasis.evals.stress_tensor as st
+        from sx.harness import make_shell
+
+        p = self.params
+        basis = [make_shell(mk, I["sh"], "cartesian")]
+        a = Fraction(p["alpha"])
+        b = Fraction(p["beta"])
+        a = int(a) if a.denominator == 1 else float(a)
+        b = int(b) if b.denominator == 1 else float(b)
+        P, pts = mk.array(I["P"]), mk.array([I["pt"]])
+        f = {"stress": st.evaluate_stress_tensor, "force": st.evaluate_ehrenfest_force, "hessian": st.evaluate_ehrenfest_hessian}[p["fn"]]
+        return {"out": f(P, basis, pts, alpha=a, beta=b)}
+
+    def ref(self, I, ops, mk):
+        from refs import gauss as G
+
+        p = self.params
+        a, b = ops.const(Fraction(p["alpha"])), ops.const(Fraction(p["beta"]))
+        cache = {}
+
+        def jet(o):
+            if o not in cache:
+                cache[o] = G.eval_shell(ops, I["sh"], I["pt"], o, normalise=True)[0]
+            return cache[o]
+
+        def ev(expr):
+            tot = ops.zero
+            for (m, n), c in expr.items():
+                jm, jn = jet(m), jet(n)
+                g = ops.zero
+                for i in range(len(jm)):
+                    for j in range(len(jn)):
+                        g = g + I["P"][i][j] * jm[i] * jn[j]
+                tot = tot + c * g
+            return tot
+
+        if p["fn"] == "stress":
+            sig = ref_sigma(a, b)
+            return {"out": np.array([[[ev(sig[(i, j)]) for j in range(3)] for i in range(3)]], dtype=object)}
+        if p["fn"] == "force":
+            F = ref_force(a, b)
+            return {"out": np.array([[ev(F[i]) for i in range(3)]], dtype=object)}
+        Hh = ref_hessian(a, b)
+        return {"out": np.array([[[ev(Hh[(i, j)]) for j in range(3)] for i in range(3)]], dtype=object)}
+
+
 def cases(tier, seed=0):
     out = []
+    out.append(StressReal(fn="hessian", l=0, alpha="1/2", beta="1"))
+    out.append(StressReal(fn="force", l=0, alpha="0", beta="2"))
+    out.append(StressReal(fn="stress", l=1, alpha="1/2", beta="1"))
+    if tier == "thorough":
+        out.append(StressReal(fn="hessian", l=1, alpha="0", beta="1/2"))
+        out.append(StressReal(fn="force", l=1, alpha="2", beta="1"))
     for fn in ("stress", "force", "hessian"):
         out.append(Stress(fn=fn, nb=2, npts=1, alpha="sym", beta="sym", transform=True))
         for a, b in [("1", "0"), ("0", "1"), ("1/2", "3"), ("1", "1"), ("0", "0"), ("-2", "1/2")]:
